@@ -553,9 +553,10 @@ func TestExhaustive(t *testing.T) {
 		return r
 	}
 	hx.Enumerate(t, "literals", func(yield func(Case) bool) {
-		var rec func(form string, alpha []string, max int, cur []string, usesX bool) bool
-		rec = func(form string, alpha []string, max int, cur []string, usesX bool) bool {
-			if len(cur) > 0 {
+		// by increasing length, so that the first violation is a short one
+		var rec func(form string, alpha []string, left int, cur []string, usesX bool) bool
+		rec = func(form string, alpha []string, left int, cur []string, usesX bool) bool {
+			if left == 0 {
 				ps := append([]string(nil), cur...)
 				xs := envXs
 				if !usesX || form == "raw" {
@@ -566,20 +567,23 @@ func TestExhaustive(t *testing.T) {
 						return false
 					}
 				}
-			}
-			if len(cur) == max {
 				return true
 			}
 			for _, a := range alpha {
-				if !rec(form, alpha, max, append(cur, a), usesX || a == "{{x}}") {
+				if !rec(form, alpha, left-1, append(cur, a), usesX || a == "{{x}}") {
 					return false
 				}
 			}
 			return true
 		}
-		_ = rec("dq", names(nCoreQuoted), dq, nil, false) &&
-			rec("sq", names(nCoreQuoted), dq, nil, false) &&
-			rec("raw", names(nCoreRaw), dr, nil, false)
+		for n := 1; n <= dq; n++ {
+			if !rec("dq", names(nCoreQuoted), n, nil, false) || !rec("sq", names(nCoreQuoted), n, nil, false) {
+				return
+			}
+			if n <= dr && !rec("raw", names(nCoreRaw), n, nil, false) {
+				return
+			}
+		}
 	}, runCase)
 	hx.E.Exhaustive("literals", map[string]interface{}{
 		"quoted_forms": []string{"dq", "sq"}, "quoted_pieces": names(nCoreQuoted), "quoted_max_pieces": dq,
